@@ -2,7 +2,9 @@ package props
 
 import (
 	"encoding/json"
+	"encoding/pem"
 	"fmt"
+	"io"
 	"sort"
 	"testing"
 
@@ -19,6 +21,39 @@ import (
 type gDelivery struct {
 	Cert int  `json:"cert"`
 	Root bool `json:"root"`
+	// Chunk > 0: the certificate arrives as a PEM stream through Graph.AppendFromPEMErr, read in pieces of at most
+	// Chunk bytes; Junk adds other material to the stream (1 text before the block, 2 an unparseable CERTIFICATE block
+	// before it, 3 a block of another type after it, 4 text after it without a final newline); EOFData makes the last
+	// Read return its bytes together with io.EOF
+	Chunk   int  `json:"chunk,omitempty"`
+	Junk    int  `json:"junk,omitempty"`
+	EOFData bool `json:"eof_data,omitempty"`
+}
+
+// chunkReader hands out a byte stream in pieces.
+type chunkReader struct {
+	data    []byte
+	chunk   int
+	eofData bool
+}
+
+func (c *chunkReader) Read(p []byte) (int, error) {
+	if len(c.data) == 0 {
+		return 0, io.EOF
+	}
+	n := c.chunk
+	if n > len(p) {
+		n = len(p)
+	}
+	if n > len(c.data) {
+		n = len(c.data)
+	}
+	copy(p, c.data[:n])
+	c.data = c.data[n:]
+	if len(c.data) == 0 && c.eofData {
+		return n, io.EOF
+	}
+	return n, nil
 }
 
 type c10Scenario struct {
@@ -38,7 +73,13 @@ func genC10(seed uint64, tier string) any {
 			continue // dangling issuer: this certificate is never delivered
 		}
 		root := sc.PKI.Certs[i].Issuer == sc.PKI.Certs[i].Subject && r.Chance(4, 5)
-		base = append(base, gDelivery{Cert: i, Root: root})
+		d := gDelivery{Cert: i, Root: root}
+		if r.Chance(1, 4) {
+			d.Chunk = []int{1, 2, 7, 63, 64, 65, 500, 4096}[r.Intn(8)]
+			d.Junk = r.Pick([]int{3, 1, 1, 1, 1})
+			d.EOFData = r.Bool()
+		}
+		base = append(base, d)
 	}
 	// faults of the delivery channel: duplicates and re-delivery with the other root flag
 	for k := r.Intn(len(base) + 2); k > 0 && len(base) > 0 && len(base) < 40; k-- {
@@ -226,16 +267,44 @@ func execC10(t *testing.T, scAny any, keepLog bool) (o *Outcome) {
 				}
 			}
 			var pv any
+			pemFail := ""
 			func() {
 				defer func() { pv = recover() }()
-				if d.Root {
+				switch {
+				case d.Chunk > 0:
+					// the certificate arrives as a PEM stream
+					stream := kit.PEMCert(b.K.DER)
+					bad := 0
+					switch d.Junk {
+					case 1:
+						stream = append([]byte("subject=CN=whatever\nissuer=somebody\n"), stream...)
+					case 2:
+						broken := append([]byte(nil), b.K.DER[:len(b.K.DER)/2]...)
+						stream = append(kit.PEMCert(broken), stream...)
+						bad = 1
+					case 3:
+						stream = append(stream, pem.EncodeToMemory(&pem.Block{Type: "X509 CRL", Bytes: []byte{0x30, 0x03, 0x02, 0x01, 0x01}})...)
+						bad = 1
+					case 4:
+						stream = append(stream, []byte("trailing text without newline")...)
+					}
+					n, perrs, err := g.AppendFromPEMErr(&chunkReader{data: stream, chunk: d.Chunk, eofData: d.EOFData}, d.Root)
+					o.count("fault.delivered_as_chunked_pem_stream", 1)
+					if err != nil || n != 1 || len(perrs) != bad {
+						pemFail = fmt.Sprintf("AppendFromPEMErr returned (%d, %d parse errors, %v) for a stream with one certificate and %d unparseable block(s) (chunk %d, junk %d)", n, len(perrs), err, bad, d.Chunk, d.Junk)
+					}
+				case d.Root:
 					g.AddRoot(b.Z)
-				} else {
+				default:
 					g.AddCert(b.Z)
 				}
 			}()
 			if pv != nil {
 				o.Fail = Failf("c10.panic", "panic while inserting a certificate", "order %c step %d cert %d root=%v: %v", 'A'+oi, step, d.Cert, d.Root, pv)
+				return o
+			}
+			if pemFail != "" {
+				o.Fail = Failf("c10.pem", "a certificate delivered as a PEM stream was not inserted exactly once", "order %c step %d: %s", 'A'+oi, step, pemFail)
 				return o
 			}
 			if d.Root {
@@ -297,7 +366,7 @@ func init() {
 		Real:   []string{"verifier.Graph AddCert/AddRoot/Nodes/Edges/FindEdge/FindNode/IsRoot incl. the dangling-edge fix-up"},
 		Stub:   []string{"certificates generated with the standard library from a fixed key pool", "issuer oracle: standard-library signature verification"},
 		Assume: []string{"ECDSA keys: at most one node verifies a given certificate, so the documented freedom (choice among several verifying issuers) does not arise"},
-		FaultKinds: []string{"fault.duplicate_delivery", "fault.redelivery_other_root_flag", "probe.dangling_edges_seen"},
+		FaultKinds: []string{"fault.duplicate_delivery", "fault.redelivery_other_root_flag", "fault.delivered_as_chunked_pem_stream", "probe.dangling_edges_seen"},
 		NotInjected: "no clock, transport or storage is involved; the fault dimension is delivery order, duplication and re-delivery",
 		Gen:         genC10, New: func() any { return &c10Scenario{} }, Exec: execC10, Shrink: shrinkC10,
 		QuickRuns: 3000, ThoroughRuns: 300000,
